@@ -3,6 +3,10 @@
 usage: agent_prompt.py <ID>   (the agent gets only the property record and its scratch worktree)"""
 import json, sys
 pid = sys.argv[1]
+# optional: variant letters (default "A,B") and a text listing ideas already used (to be avoided)
+variants = (sys.argv[2] if len(sys.argv) > 2 else "A,B").split(",")
+avoid = sys.argv[3] if len(sys.argv) > 3 else ""
+V1, V2 = variants
 rec = None
 for l in open('/verif/properties.jsonl'):
     d = json.loads(l)
@@ -12,12 +16,14 @@ wt = f"/tmp/wt/{pid}"
 out = f"/tmp/wt/{pid}-out"
 print(f"""You are given a scratch git worktree of the open-source Go project pdfcpu (a PDF processing library and CLI) at {wt}. Work ONLY inside {wt} and {out}. Never read or write /repo or /verif (they are off limits), do not commit anything, and NEVER use `git stash` (the stash is shared with other people's worktrees): save your change with `git diff > file` and undo it with `git checkout -- .` / `git apply -R file`.
 
-TASK: produce TWO independent, realistic code changes to pdfcpu (call them A and B; different code sites / different mechanisms) that each BREAK the semantic property below, while the project still compiles and the ENTIRE existing test suite still passes. Think of regressions a maintainer could plausibly introduce: a refactoring that drops a step, a reordered pair of calls, a guard that is weakened or moved, a new code path that bypasses a helper, an optimisation that skips a check, an error that is swallowed, a table entry dropped. Each change must need something specific to manifest — a particular fault or crash point, a panic at a particular place, a multi-step sequence of operations, an unusual or adversarial input, a particular interleaving, or two cooperating sites that each look fine alone — NOT something that ordinary use or the existing tests would expose at once. Prefer small, surgical diffs (a few lines) in non-test source files; do not edit tests, testdata or go.mod.
+TASK: produce TWO independent, realistic code changes to pdfcpu (call them {V1} and {V2}; different code sites / different mechanisms) that each BREAK the semantic property below, while the project still compiles and the ENTIRE existing test suite still passes. Think of regressions a maintainer could plausibly introduce: a refactoring that drops a step, a reordered pair of calls, a guard that is weakened or moved, a new code path that bypasses a helper, an optimisation that skips a check, an error that is swallowed, a table entry dropped. Each change must need something specific to manifest — a particular fault or crash point, a panic at a particular place, a multi-step sequence of operations, an unusual or adversarial input, a particular interleaving, or two cooperating sites that each look fine alone — NOT something that ordinary use or the existing tests would expose at once. Prefer small, surgical diffs (a few lines) in non-test source files; do not edit tests, testdata or go.mod.
 
 PROPERTY {pid} (JSON record):
 {json.dumps(rec, indent=1)}
 
-DELIVERABLES, for each change X in {{A,B}}, in directory {out}/X/ :
+{("ALREADY USED by earlier changes - pick clearly different code sites and mechanisms: " + avoid) if avoid else ""}
+
+DELIVERABLES, for each change X in {{{V1},{V2}}}, in directory {out}/X/ :
   1. patch.diff  — `git diff` against HEAD of the worktree, containing only the source change (no test files, no sample outputs).
   2. a demonstration — a Go test file (say which package directory it must be copied into) or a small Go program, that FAILS (or shows the violation) with the patch applied and PASSES without it. Keep it self-contained and fast (seconds). It may use test helpers, fault injection seams or fake operation tables that already exist in the code base.
   3. README.md — what the change is, why it breaks the property, what it needs in order to manifest, and the exact commands you ran (with their outcome) to show: (a) demo fails with patch, (b) demo passes without patch, (c) full suite passes with patch.
@@ -28,5 +34,5 @@ HOW TO BUILD/TEST (offline sandbox; the module cache is populated):
   Full suite: go test -vet=off -count=1 -timeout 25m ./...   (NOTE: in this snapshot three packages fail even without any change — pkg/api/test and pkg/cli/test abort in TestMain because two font fixtures are 0-byte files, and pkg/pdfcpu TestReadTIFFWritePNG fails on a 0-byte fixture; TestReadLargeDictObject* may time out under machine load. 'Passes' therefore means: no failure that the unmodified tree does not also have. Run the baseline once to compare. Takes several minutes; give the shell command a long timeout, e.g. 30 minutes; other jobs share the machine). Tests rewrite some sample PDFs under pkg/samples; ignore those in your diff (git checkout -- pkg/samples before diffing).
   You MUST actually run the full suite with each patch applied and confirm it passes, and run the demo both ways. If a candidate change makes an existing test fail, pick a different change.
 
-WHEN DONE: revert the worktree to a clean state (git -C {wt} checkout -- . ; remove any files you added inside the worktree) and reply with a short summary: for A and B the files touched, what is needed to manifest, and the verification results. Do not include anything else.
+WHEN DONE: revert the worktree to a clean state (git -C {wt} checkout -- . ; remove any files you added inside the worktree) and reply with a short summary: for {V1} and {V2} the files touched, what is needed to manifest, and the verification results. Do not include anything else.
 """)
